@@ -711,6 +711,16 @@ impl JobServerHandle {
         // (Before our token is destroyed: a job that cannot be started, for
         // want of file descriptors or processes, must not cost a token.)
         let (r, w) = make_pipe(50).map_err(RedoError::opaque_error)?;
+        if r as usize >= libc::FD_SETSIZE {
+            // The event loop waits with select(), which cannot take such a
+            // descriptor (FdSet::insert panics): this job cannot be started.
+            let _ = unistd::close(r);
+            let _ = unistd::close(w);
+            return Err(RedoError::new(format!(
+                "{}: too many jobs running at once (file descriptor {} is beyond select()'s limit)",
+                reason, r
+            )));
+        }
         {
             let mut state = self.state.borrow_mut();
             assert_eq!(state.my_tokens, 1);
@@ -1127,13 +1137,25 @@ impl Default for EnsureTokenState {
 /// strace.
 fn make_pipe(startfd: RawFd) -> nix::Result<(RawFd, RawFd)> {
     let (a, b) = unistd::pipe()?;
-    let fds = (
-        fcntl::fcntl(a, fcntl::F_DUPFD(startfd))?,
-        fcntl::fcntl(b, fcntl::F_DUPFD(startfd + 1))?,
-    );
-    unistd::close(a)?;
-    unistd::close(b)?;
-    Ok(fds)
+    // (no descriptor is left behind when one of the steps fails)
+    let r = fcntl::fcntl(a, fcntl::F_DUPFD(startfd));
+    let w = match r {
+        Ok(_) => fcntl::fcntl(b, fcntl::F_DUPFD(startfd + 1)),
+        Err(e) => Err(e),
+    };
+    let closed = unistd::close(a).and(unistd::close(b));
+    match (r, w, closed) {
+        (Ok(r), Ok(w), Ok(())) => Ok((r, w)),
+        (r, w, closed) => {
+            if let Ok(r) = r {
+                let _ = unistd::close(r);
+            }
+            if let Ok(w) = w {
+                let _ = unistd::close(w);
+            }
+            Err(w.err().or(closed.err()).unwrap_or(Errno::EMFILE))
+        }
+    }
 }
 
 /// Try to fill `buf` with bytes read from `fd`. Returns `Ok(Some(0))`
